@@ -29,7 +29,8 @@ MANIFEST = {
             'resources and agent nodes.'
             "  Second session: layouts now include 0-2 sub-agent nodes and a service node (./services), and 'reserved node used' is decided from the agent/service node lists alone."
             "  Third session: application-level histories ask for amounts which use a node's storage / memory up exactly, share cores (core_occupation < 1) and debit what the rank asked for."
-            '  Scheduler histories include tasks whose application-supplied slots are invalid (unknown node / core, at any rank position): they must be failed and never placed (invalid-app-slots-granted), the books stay as they were (C03 decides the latter).',
+            '  Scheduler histories include tasks whose application-supplied slots are invalid (unknown node / core, at any rank position): they must be failed and never placed (invalid-app-slots-granted), the books stay as they were (C03 decides the latter).'
+            "  The threaded NodeList workload (shared with C02) checks after every grant that no core / GPU of the granted slot is held more than once and no node's lfs / mem went negative.",
     'note': 'components run as threads over the in-memory transport; the fork '
             'is emulated by two objects sharing only the two queues; '
             'Continuous scheduler only (ContinuousJsrun uses another slot '
